@@ -87,6 +87,13 @@ theorem iena_time_inverse (fl : ℚ → ℚ) (F : FloatSem fl) (ts us soy : ℕ)
     · push_cast; linarith [hq1.1, hq2.1]
     · push_cast; linarith [hq1.2, hq2.2]
 
+/-- the same law for the executable model (binary64 round-to-nearest-even), which the correspondence
+    check compares with CPython bit for bit -/
+theorem iena_time_inverse_exec (ts us soy : ℕ)
+    (h1 : soy ≤ ts) (h2 : ts - soy ≤ 366 * 86400) (h3 : us < 1000000) (h4 : ts < 2 ^ 32) :
+    getPacketTime (setPacketTime ts us soy) soy = ts :=
+  iena_time_inverse Float.rne rne_floatSem ts us soy h1 h2 h3 h4
+
 /-- the hypotheses are satisfiable: 2024-02-29 12:00:00 UTC and 1 µs, start of year 2024-01-01 UTC -/
 example : (1704067200 : ℕ) ≤ 1709208000 ∧ 1709208000 - 1704067200 ≤ 366 * 86400 ∧ (1 : ℕ) < 1000000 ∧
     (1709208000 : ℕ) < 2 ^ 32 := by decide
